@@ -610,6 +610,18 @@ func (re *Regexp) GroupNameFromNumber(i int) string {
 	return ""
 }
 
+// groupNameFromSlot returns the name of the group stored in the given capture
+// slot (the position in GetGroupNames / Match.Groups, not the group number).
+func (re *Regexp) groupNameFromSlot(slot int) string {
+	if re.capslist == nil {
+		return re.GroupNameFromNumber(slot)
+	}
+	if slot >= 0 && slot < len(re.capslist) {
+		return re.capslist[slot]
+	}
+	return ""
+}
+
 // GroupNumberFromName returns a group number that corresponds to a group name.
 // Returns -1 if the name is not a recognized group name. Numbered groups
 // automatically get a group name that is the decimal string equivalent of its
